@@ -162,6 +162,7 @@ def contentName : Option Bytes → String
 
 def fopName : FOp → String
   | .creat f => "c:" ++ fileName f
+  | .creatExcl f => "x:" ++ fileName f
   | .write f d => "w:" ++ fileName f ++ ":" ++ contentName (some d)
   | .rename a b => "mv:" ++ fileName a ++ ">" ++ fileName b
 
